@@ -184,7 +184,13 @@ func (d *Decoder) decodeSet(mem MemCache, msg *Message) error {
 	// For template and reserved sets, anything up to 4 bytes is padding.
 	minLen := 5
 	if setHeader.SetID > 255 && err == nil {
-		minLen = tr.minRecordLength()
+		if minLen = tr.minRecordLength(); minLen == 0 {
+			// records of no octets: decoding them would never advance
+			err = nonfatalError{fmt.Errorf("%s ipfix template id# %d describes empty records",
+				d.raddr.String(),
+				setHeader.SetID,
+			)}
+		}
 	}
 
 	for err == nil && int(setHeader.Length)-(d.reader.ReadCount()-startCount) >= minLen && (setHeader.SetID > 255 || d.reader.Len() > 4) {
